@@ -10,6 +10,11 @@ the 5 s closing timeout (virtual).  Size limits: a message is MUST-DELIVER iff
 its wire payload total <= limit and its decompressed size <= limit, MUST-ABORT
 iff either exceeds.  UNSPECIFIED classes are executed, counted and only held to
 the safety half (prefix intact, no uncaught-exception log).
+
+Schedules: a third of the sessions run with a *backlog*: the tornado side has queued a large
+message the peer does not read while it sends its frames (tornado's write buffer is not empty
+when the violating frame arrives), and only afterwards starts reading.  Oversized frames also
+come in the "smuggle" form: the bytes following the violating header are well-formed frames.
 """
 from __future__ import annotations
 
@@ -36,7 +41,7 @@ META = {
                   "position of generated sessions, against the real server and the real client; boundary messages of "
                   "exactly the limit must be delivered.",
     "level_note": "Trusts the generator's labelling (each violating byte string is re-validated by the independent codec / "
-                  "UTF-8 validator). UNSPECIFIED (executed, not gated): RSV1 on control or continuation frames with deflate "
+                  "UTF-8 validator). UNSPECIFIED (executed, not gated): RSV1 on control frames with deflate "
                   "negotiated, non-final data frame with a reserved opcode, masking direction, non-minimal lengths, "
                   "1-byte close payloads.",
     "design_ref": "DESIGN.md §4 C15",
@@ -50,7 +55,8 @@ FLOORS = {"quick": 1500, "thorough": 40000}
 ASSUMPTIONS = ["reference codec and UTF-8 validator are correct", "virtual loop over AF_UNIX",
                "teardown deadline = 5 s closing timeout + 0.5 s virtual"]
 REQUIRED_COUNTERS = ["oracle_evals", "must_reject_cases", "must_deliver_cases", "rejected_immediately",
-                     "prefix_messages_checked"]
+                     "prefix_messages_checked", "backlog_reject_cases", "backlog_deliver_cases",
+                     "backlog_output_pending_at_violation", "rsv_on_continuation_cases"]
 
 BAD_UTF8 = [b"\xc0\x80", b"\x80", b"\xe2\x82", b"\xed\xa0\x80", b"\xf4\x90\x80\x80", b"\xff", b"\xc3",
             b"\xe0\x80\x80", b"\xf0\x82\x82\xac", b"\xf8\x88\x80\x80\x80"]
@@ -59,7 +65,7 @@ LIMITS = [1, 100, 1000, 65536]
 
 MUST_REJECT = ["rsv", "ctl-frag", "ctl-long", "cont-no-start", "new-in-frag", "bad-utf8", "opcode",
                "too-big"]
-UNSPEC = ["u-rsv1-ctl", "u-rsv1-cont", "u-nonfinal-reserved-opcode", "u-mask-direction", "u-nonminimal-len",
+UNSPEC = ["u-rsv1-ctl", "u-nonfinal-reserved-opcode", "u-mask-direction", "u-nonminimal-len",
           "u-close-1byte", "u-corrupt-deflate"]
 
 
@@ -85,11 +91,20 @@ def gen_violation(rng, deflate, limit, inside):
     kind = rng.choice(MUST_REJECT if rng.random() < 0.88 else UNSPEC)
     v = {"kind": kind}
     if kind == "rsv":
-        if deflate:
+        v["on"] = rng.choice(["text", "bin", "ping", "pong", "close", "first-fragment", "continuation", "continuation"])
+        if v["on"] == "continuation":
+            # RFC 6455 5.2: a non-zero RSV bit whose meaning no negotiated extension defines fails the connection;
+            # permessage-deflate defines RSV1 for the *first* fragment of a data message only and RFC 7692 6.1 says
+            # "MUST NOT set the Per-Message Compressed bit of ... non-first fragments of a data message" - so on a
+            # continuation frame every RSV value is a violation, with or without the extension
+            v["bits"] = rng.randint(1, 7)
+            v["which"] = rng.choice(["last", "last", "middle", "all"])
+            v["first_z"] = bool(deflate) and rng.random() < 0.6      # a properly flagged compressed message
+            v["t"] = rng.choice(["text", "bin"])
+        elif deflate:
             v["bits"] = rng.choice([1, 2, 3, 5, 6, 7])       # RSV2/RSV3 involved
         else:
             v["bits"] = rng.randint(1, 7)
-        v["on"] = rng.choice(["text", "bin", "ping", "pong", "close", "first-fragment"])
     elif kind == "ctl-frag":
         v["op"] = rng.choice([8, 9, 10])
         v["n"] = rng.choice([0, 2, 50, 125])
@@ -119,13 +134,19 @@ def gen_violation(rng, deflate, limit, inside):
             v["form"] = "header-only"
             v["declared"] = rng.choice([10 * 1024 * 1024 + 1, 1 << 32, (1 << 63) - 1, 1 << 63, (1 << 64) - 1])
         else:
-            forms = ["single", "fragmented", "header-only"]
+            forms = ["single", "fragmented", "header-only", "smuggle", "smuggle"]
             if deflate:
                 forms += ["inflated", "inflated", "wire-over-inflated-under"]
             v["form"] = rng.choice(forms)
             v["declared"] = rng.choice([limit + 1, limit + 2, 1 << 63, (1 << 64) - 1])
             v["parts"] = rng.randint(2, 4)
             v["extra"] = rng.choice([1, 1, 2, 50])
+        if limit is None and rng.random() < 0.4:
+            v["form"] = "smuggle"
+        if v["form"] == "smuggle":
+            # what follows the header that announces too much is not filler but well-formed frames
+            v["inner"] = rng.choice([0, 1, 1, 2, 3])
+            v["frag"] = rng.random() < 0.4           # the announcing frame is a continuation crossing the limit
         v["t"] = rng.choice(["text", "bin"])
     elif kind == "u-rsv1-ctl":
         v["op"] = rng.choice([9, 10])
@@ -134,6 +155,13 @@ def gen_violation(rng, deflate, limit, inside):
     elif kind == "u-nonminimal-len":
         v["enc"] = rng.choice([16, 64])
     return v
+
+
+def gen_backlog(rng):
+    """None, or the size of a message the tornado side queues for a peer that is not reading while it sends."""
+    if rng.random() < 0.33:
+        return rng.choice([40000, 70000, 150000])
+    return None
 
 
 def gen_case(rng, role, tier):
@@ -149,7 +177,7 @@ def gen_case(rng, role, tier):
                 "at": rng.randint(0, nmsg), "form": rng.choice(["single", "fragmented", "fragmented-ping", "inflated"]
                                                               if deflate else ["single", "fragmented", "fragmented-ping"]),
                 "t": rng.choice(["text", "bin"]), "parts": rng.randint(2, 4), "ping": rng.choice([1, 5, 125]),
-                "seg": rng.choice(["whole", "random"]), "seed": rng.randrange(1 << 30)}
+                "seg": rng.choice(["whole", "random"]), "seed": rng.randrange(1 << 30), "backlog": gen_backlog(rng)}
     pos = rng.randint(0, nmsg)
     inside = False
     if pos < nmsg and rng.random() < 0.45:
@@ -164,9 +192,9 @@ def gen_case(rng, role, tier):
         elif not msgs[pos]["cuts"]:
             msgs[pos]["cuts"] = [("f", 0.5)]
         inside = True
-    if v["kind"] in ("cont-no-start", "bad-utf8", "too-big", "u-rsv1-cont", "u-nonfinal-reserved-opcode"):
+    if v["kind"] in ("cont-no-start", "bad-utf8", "too-big", "u-nonfinal-reserved-opcode"):
         inside = False
-    if v["kind"] == "rsv" and v["on"] in ("text", "bin", "first-fragment"):
+    if v["kind"] == "rsv" and v["on"] in ("text", "bin", "first-fragment", "continuation"):
         inside = False
     if v["kind"] == "opcode" and v["op"] < 8:
         pass  # inside a fragmented message it is both a new data frame and an unknown opcode
@@ -174,7 +202,8 @@ def gen_case(rng, role, tier):
              for _ in range(rng.randint(1, 2))]
     return {"role": role, "deflate": deflate, "limit": limit, "class": "unspec" if v["kind"].startswith("u-") else "reject",
             "msgs": msgs, "pos": pos, "inside": inside, "viol": v, "later": later,
-            "seg": rng.choice(["whole", "whole", "random", "bytes"]), "seed": rng.randrange(1 << 30)}
+            "seg": rng.choice(["whole", "whole", "random", "bytes"]), "seed": rng.randrange(1 << 30),
+            "backlog": gen_backlog(rng)}
 
 
 def shards(tier, seed):
@@ -203,6 +232,26 @@ def directed_cases():
            "later": later, "seg": "whole", "seed": 6}
     yield {"role": "server", "deflate": False, "limit": None, "class": "reject", "msgs": [], "pos": 0, "inside": False,
            "viol": {"kind": "rsv", "bits": 4, "on": "text"}, "later": later, "seg": "whole", "seed": 7}
+    # round-3 seeded changes.  C15c: the oversized frame arrives while tornado still has unsent output for a peer
+    # that is not reading; the bytes after the violating header are well-formed frames / later messages
+    prior = [{"t": "text", "n": 6, "kind": "ascii", "seed": 1, "z": False, "cuts": [], "ctl": {}, "after": [], "blocks": 1}]
+    for role in ("server", "client"):
+        yield {"role": role, "deflate": False, "limit": 100, "class": "reject", "msgs": prior, "pos": 1, "inside": False,
+               "viol": {"kind": "too-big", "form": "smuggle", "declared": 101, "inner": 2, "frag": False, "t": "bin"},
+               "later": later, "seg": "whole", "seed": 8, "backlog": 70000}
+        yield {"role": role, "deflate": False, "limit": None, "class": "reject", "msgs": prior, "pos": 1, "inside": False,
+               "viol": {"kind": "too-big", "form": "smuggle", "declared": 1 << 32, "inner": 0, "frag": True, "t": "text"},
+               "later": later, "seg": "random", "seed": 9, "backlog": 150000}
+        yield {"role": role, "deflate": True, "limit": 1000, "class": "reject", "msgs": prior, "pos": 1, "inside": False,
+               "viol": {"kind": "too-big", "form": "inflated", "declared": 1001, "parts": 2, "extra": 1, "t": "text"},
+               "later": later, "seg": "whole", "seed": 10, "backlog": 40000}
+        # C15d: RSV1 on a non-first fragment with permessage-deflate negotiated (RFC 7692 6.1), compressed and plain
+        yield {"role": role, "deflate": True, "limit": None, "class": "reject", "msgs": prior, "pos": 1, "inside": False,
+               "viol": {"kind": "rsv", "bits": 4, "on": "continuation", "which": "all", "first_z": True, "t": "text"},
+               "later": later, "seg": "whole", "seed": 11, "backlog": None}
+        yield {"role": role, "deflate": True, "limit": None, "class": "reject", "msgs": [], "pos": 0, "inside": False,
+               "viol": {"kind": "rsv", "bits": 4, "on": "continuation", "which": "last", "first_z": False, "t": "bin"},
+               "later": later, "seg": "bytes", "seed": 12, "backlog": None}
 
 
 # ---------------------------------------------------------------------------
@@ -297,6 +346,22 @@ def build_reject(case, b: Builder, limit):
         elif on == "first-fragment":
             b.add(1, b"frag", fin=False, rsv=bits)
             b.add(0, b"ment", fin=True)
+        elif on == "continuation":
+            # an otherwise valid fragmented message (plain, or compressed and properly flagged on its first
+            # fragment) whose non-first fragment(s) carry reserved bits
+            raw = b"continued-payload" if v["t"] == "bin" else "continued-pay\u00e9".encode()
+            z = v["first_z"] and b.defl is not None
+            if z and b.limit is not None and b.defl.trial_len(raw) > b.limit:
+                z = False
+            if b.limit is not None and not z:
+                raw = raw[:max(1, b.limit)] if v["t"] == "bin" else raw[:max(1, min(b.limit, 13))]
+            payload = b.defl.compress(raw) if z else raw
+            n = len(payload)
+            c1, c2 = n // 3, (2 * n) // 3
+            which = v["which"]
+            b.add(1 if v["t"] == "text" else 2, payload[:c1], fin=False, rsv=ws.RSV1 if z else 0)
+            b.add(0, payload[c1:c2], fin=False, rsv=bits if which in ("middle", "all") else 0)
+            b.add(0, payload[c2:], fin=True, rsv=bits if which in ("last", "all") else 0)
         else:
             b.add(1 if on == "text" else 2, b"reserved", rsv=bits)
     elif kind == "ctl-frag":
@@ -340,7 +405,30 @@ def build_reject(case, b: Builder, limit):
     elif kind == "too-big":
         op = 1 if v["t"] == "text" else 2
         form = v["form"]
-        if form == "header-only":
+        if form == "smuggle":
+            # The header announces more than the limit.  What follows it (where the masking key and the payload of
+            # the oversized frame would be) are `inner` well-formed frames, then the rest of the session.
+            L = limit if limit is not None else 10 * 1024 * 1024
+            declared = max(v["declared"], L + 1)
+            first = 0
+            if v["frag"]:
+                first = max(1, min(3, L))
+                b.add(op, b"f" * first, fin=False)
+                op = 0
+                declared = max(1, min(declared, (1 << 64) - 1) - first)
+                if first + declared <= L:
+                    raise RuntimeError("generator bug: fragments do not cross the limit")
+            enc = 64 if declared > 0xFFFF else (16 if declared > 125 else 7)
+            hdr = bytearray(ws.build_frame(op, b"", declared_len=declared, len_enc=enc, fin=(not v["frag"]) or rng.random() < 0.5))
+            if b.masked:
+                hdr[1] |= 0x80
+            b.frames.append(bytes(hdr))
+            for i in range(v["inner"]):
+                if i % 2 == 0:
+                    b.add(1, b"smuggled-%d" % i)
+                else:
+                    b.add(2, b"\x00smuggled-%d" % i)
+        elif form == "header-only":
             enc = 64 if v["declared"] > 0xFFFF else (16 if v["declared"] > 125 else 7)
             b.add(op, b"abc"[:min(3, v["declared"])], declared_len=v["declared"], len_enc=enc)
         elif form == "single":
@@ -479,7 +567,46 @@ async def run_session(case, ctx):
             expected = build_reject(case, b, limit)
         data = b"".join(b.frames)
         seg = case["seg"] if len(data) <= 400 or case["seg"] != "bytes" else "random"
-        await peer.send(data, cuts_for(rng, len(data), seg))
+        backlog = case.get("backlog")
+        pending = None
+        if backlog:
+            # The tornado side queues a large message; the peer does not read while it sends its own frames, so
+            # tornado's write buffer is non-empty when the frames (and the violating one) arrive.
+            import socket as _socket
+            tstream = sess.stream if role == "server" else sess.conn.protocol.stream
+            tstream.socket.setsockopt(_socket.SOL_SOCKET, _socket.SO_SNDBUF, 4096)
+            blob = random.Random(case["seed"] ^ 0x5A5A).randbytes(backlog)      # incompressible
+            writer = rec.handler if role == "server" else sess.conn
+            fut = writer.write_message(blob, binary=True)
+            fut.add_done_callback(lambda f: f.cancelled() or f.exception())   # the harness owns this future
+            await vloop.settle(2)
+            queued = bool(tstream.writing())
+            pos = 0
+            for n in cuts_for(rng, len(data), seg):
+                if peer.send_error is not None:
+                    break
+                seg_bytes = data[pos:pos + n]
+                pos += n
+                spins = 0
+                while seg_bytes and spins < 10000:
+                    try:
+                        k = peer.sock.send(seg_bytes)
+                        seg_bytes = seg_bytes[k:]
+                    except BlockingIOError:
+                        spins += 1
+                    except OSError as e:        # tornado already closed: nothing more can be sent
+                        peer.send_error = e
+                        break
+                    await vloop.settle()
+                await vloop.settle()
+            await vloop.settle(2)
+            # observation points while the peer has still not read anything
+            pending = {"queued": queued, "writing": bool(not tstream.closed() and tstream.writing()),
+                       "closed": tstream.closed(), "delivered": len(rec.messages())}
+            # now the peer reads everything tornado has for it
+            await ws_rig.pump_until_idle(peer, 400)
+        else:
+            await peer.send(data, cuts_for(rng, len(data), seg))
         await peer.drain(2)
         immediate = peer.eof
         if not immediate:
@@ -487,7 +614,7 @@ async def run_session(case, ctx):
             await peer.drain(2)
         got = rec.messages()
         frames = sess.frames()
-        return {"expected": expected, "got": got, "immediate": immediate, "eof": peer.eof,
+        return {"expected": expected, "got": got, "immediate": immediate, "eof": peer.eof, "pending": pending,
                 "frames": [f.brief() for f in frames][:6],
                 "close_sent": [f.payload[:2] for f in frames if f.opcode == 8],
                 "closes": rec.count("close") + rec.count("close_msg")}
@@ -512,18 +639,28 @@ def run_case(case, ctx):
         if v["kind"] == "too-big":
             sub = "/" + v["form"]
         elif v["kind"] == "rsv":
-            sub = "/" + ("control" if v["on"] in ("ping", "pong", "close") else "data") + ("+deflate" if case["deflate"] else "")
+            sub = "/" + ("control" if v["on"] in ("ping", "pong", "close") else
+                         "continuation" if v["on"] == "continuation" else "data") + ("+deflate" if case["deflate"] else "")
+            if v["on"] == "continuation":
+                ctx.count("rsv_on_continuation_cases")
         elif v["kind"] == "bad-utf8":
             sub = "/" + ("fragmented" if v["frag"] != "single" else "single") + ("+deflate" if v["z"] and case["deflate"] else "")
         elif v["kind"] == "opcode":
             sub = "/control" if v["op"] >= 8 else "/data"
     wit = {"role": case["role"], "deflate": case["deflate"], "limit": case["limit"],
            "viol": case.get("viol"), "pos": case.get("pos"), "inside": case.get("inside"),
+           "backlog": case.get("backlog"), "pending": r.get("pending"),
            "expected_n": len(exp), "got_n": len(got), "eof": r["eof"], "immediate": r["immediate"],
            "tornado_frames": r["frames"], "got_tail": [_short(x) for x in got[len(exp):][:3]]}
     npre = len(exp)
     prefix_ok = len(got) >= npre and all(type(a) is type(b_) and a == b_ for a, b_ in zip(got, exp))
     ctx.count("prefix_messages_checked", npre)
+    if r.get("pending") is not None:
+        ctx.count("backlog_deliver_cases" if cls == "deliver" else "backlog_reject_cases" if cls == "reject"
+                  else "backlog_unspec_cases")
+        if r["pending"]["queued"] and (r["pending"]["writing"] or r["pending"]["closed"]):
+            # the queued message was really still (partly) unsent when the peer's frames had been processed
+            ctx.count("backlog_output_pending_at_violation")
     if cls == "deliver":
         ctx.count("must_deliver_cases")
         ctx.check(prefix_ok and len(got) == npre and not r["eof"] and not r["close_sent"],
